@@ -23,21 +23,23 @@ EXTENDS Integers, Sequences, FiniteSets, TLC
 CONSTANTS Threads,        \* set of thread ids
           MaxNow,         \* clock bound
           MaxHits,        \* bound on the number of Arrive steps
-          CountKind,      \* "int" | "bad" | "absent"   (fire_count argument)
-          CountVal,       \* value when CountKind = "int"
-          PeriodKind,     \* "int" | "bad" | "absent"   (fire_period argument, in ticks)
-          PeriodVal,
+          MaxJump,        \* how far one clock step may move (1 when model checking)
+          Configs,        \* set of settings records, see CfgOK
           DefaultPeriod,  \* the documented default (1000 ms) in ticks
-          WinStart, WinEnd,   \* 0 = unbounded on that side
-          CondKinds,      \* subset of {"none","blank","true","false","raises"}
           Atomic          \* TRUE = ideal (check+record atomic), FALSE = deviation
 
-VARIABLES now, count, last, pc, ts, cond, fires, hits, outcome
+VARIABLES cfg,   \* the tracepoint's settings (never changes): [ck, cv, pk, pv, ws, we, cm]
+                 \*   ck/pk: "int" | "bad" | "absent" (fire_count / fire_period argument), cv/pv the value
+                 \*   ws/we: window start/end in ticks, 0 = unbounded on that side
+                 \*   cm: "none" (no condition) | "blank" | "expr" (truth decided per hit)
+          now, count, last, pc, ts, cond, fires, hits, outcome
 
-vars == <<now, count, last, pc, ts, cond, fires, hits, outcome>>
+vars == <<cfg, now, count, last, pc, ts, cond, fires, hits, outcome>>
 
-EffCount  == IF CountKind = "int" THEN CountVal ELSE 1
-EffPeriod == IF PeriodKind = "int" THEN PeriodVal ELSE DefaultPeriod
+EffCount  == IF cfg.ck = "int" THEN cfg.cv ELSE 1
+EffPeriod == IF cfg.pk = "int" THEN cfg.pv ELSE DefaultPeriod
+WinStart == cfg.ws
+WinEnd == cfg.we
 
 InWindow(x) ==
     IF WinStart = 0 /\ WinEnd = 0 THEN TRUE
@@ -52,7 +54,12 @@ LimitsAllow(x) ==
 
 CondTrue(c) == c \in {"none", "blank", "true"}
 
-Init ==
+(* what a hit's condition can evaluate to under these settings *)
+CondKinds == IF cfg.cm = "none" THEN {"none"} ELSE IF cfg.cm = "blank" THEN {"blank"}
+             ELSE {"true", "false", "raises"}
+
+InitWith(c) ==
+    /\ cfg = c
     /\ now = 1
     /\ count = 0
     /\ last = 0
@@ -63,20 +70,25 @@ Init ==
     /\ hits = 0
     /\ outcome = [t \in Threads |-> "none"]
 
-Tick ==
-    /\ now < MaxNow
-    /\ now' = now + 1
-    /\ UNCHANGED <<count, last, pc, ts, cond, fires, hits, outcome>>
+Init == \E c \in Configs : InitWith(c)
+
+Advance(n) ==
+    /\ n > now /\ n <= MaxNow
+    /\ now' = n
+    /\ UNCHANGED <<cfg, count, last, pc, ts, cond, fires, hits, outcome>>
+
+Tick == \E n \in (now + 1)..(now + MaxJump) : Advance(n)
 
 Arrive(t, c) ==
     /\ pc[t] = "idle"
+    /\ c \in CondKinds
     /\ hits < MaxHits
     /\ hits' = hits + 1
     /\ ts' = [ts EXCEPT ![t] = now]
     /\ cond' = [cond EXCEPT ![t] = c]
     /\ pc' = [pc EXCEPT ![t] = "arrived"]
     /\ outcome' = [outcome EXCEPT ![t] = "pending"]
-    /\ UNCHANGED <<now, count, last, fires>>
+    /\ UNCHANGED <<cfg, now, count, last, fires>>
 
 PreCheck(t) ==
     /\ pc[t] = "arrived"
@@ -85,7 +97,7 @@ PreCheck(t) ==
               /\ UNCHANGED outcome
          ELSE /\ pc' = [pc EXCEPT ![t] = "idle"]
               /\ outcome' = [outcome EXCEPT ![t] = "limited"]
-    /\ UNCHANGED <<now, count, last, ts, cond, fires, hits>>
+    /\ UNCHANGED <<cfg, now, count, last, ts, cond, fires, hits>>
 
 EvalCond(t) ==
     /\ pc[t] = "cond"
@@ -94,7 +106,7 @@ EvalCond(t) ==
               /\ UNCHANGED outcome
          ELSE /\ pc' = [pc EXCEPT ![t] = "idle"]
               /\ outcome' = [outcome EXCEPT ![t] = "rejected"]
-    /\ UNCHANGED <<now, count, last, ts, cond, fires, hits>>
+    /\ UNCHANGED <<cfg, now, count, last, ts, cond, fires, hits>>
 
 Reserve(t) ==
     /\ pc[t] = "reserve"
@@ -109,14 +121,14 @@ Reserve(t) ==
                      /\ UNCHANGED <<count, last>>
          ELSE /\ pc' = [pc EXCEPT ![t] = "collect"]
               /\ UNCHANGED <<count, last, outcome>>
-    /\ UNCHANGED <<now, ts, cond, fires, hits>>
+    /\ UNCHANGED <<cfg, now, ts, cond, fires, hits>>
 
 Collect(t) ==
     /\ pc[t] = "collect"
     /\ fires' = Append(fires, ts[t])
     /\ pc' = [pc EXCEPT ![t] = "exit"]
     /\ outcome' = [outcome EXCEPT ![t] = "collected"]
-    /\ UNCHANGED <<now, count, last, ts, cond, hits>>
+    /\ UNCHANGED <<cfg, now, count, last, ts, cond, hits>>
 
 Exit(t) ==
     /\ pc[t] = "exit"
@@ -125,7 +137,7 @@ Exit(t) ==
          THEN UNCHANGED <<count, last>>
          ELSE /\ count' = count + 1
               /\ last' = ts[t]
-    /\ UNCHANGED <<now, ts, cond, fires, hits, outcome>>
+    /\ UNCHANGED <<cfg, now, ts, cond, fires, hits, outcome>>
 
 Next ==
     \/ Tick
